@@ -65,6 +65,20 @@ def diff_states(sa, sb):
     return [k for k in keys if k not in sa or k not in sb or not same(sa[k], sb[k])]
 
 
+def canon(v):
+    """nested containers with arrays / ranges inside, in a form that == can compare (types kept: a list that became an array
+    is a change)"""
+    if isinstance(v, np.ndarray):
+        return ("ndarray", str(v.dtype), v.shape, v.tolist())
+    if isinstance(v, range):
+        return ("range", v.start, v.stop, v.step)
+    if isinstance(v, (list, tuple)):
+        return (type(v).__name__, [canon(x) for x in v])
+    if isinstance(v, dict):
+        return ("dict", sorted((str(k), canon(x)) for k, x in v.items()))
+    return v
+
+
 def params_snapshot(est):
     snap = {}
     for k, v in est.get_params(deep=False).items():
@@ -81,7 +95,7 @@ def params_equal(a, b):
             if not (isinstance(x, np.ndarray) and isinstance(y, np.ndarray) and np.array_equal(x, y)):
                 return False
         elif isinstance(x, (list, dict)):
-            if x != y:
+            if type(x) is not type(y) or canon(x) != canon(y):
                 return False
         elif x is not y and x != y:
             # sklearn's clone deep-copies parameters that are not estimators (e.g. a GEMINI instance): same type and
@@ -515,7 +529,7 @@ def deep_changed(a, b):
         elif x[0] == "value":
             if not (x[1] is y[1] or x[1] == y[1]):
                 ch.append(k)
-        elif x[1:] != y[1:]:
+        elif canon(list(x[1:])) != canon(list(y[1:])):
             ch.append(k)
     return ch
 
